@@ -29,6 +29,15 @@ CHECKS = {
     design_ref="DESIGN.md section 4 / C02",
     technique="Coq proof (partial) + per-run structural correspondence of objective map/offset/direction + best-extension objective oracle on the implementation",
     note=TB),
+ "C03": dict(
+    category="translation_validation",
+    text="Whole programs as source text (fully parenthesised arithmetic, abs/min/max blocks, logic operators, comparisons, bare assertions, named constraints, Boolean and small integer-range "
+         "declarations) go through RoocSolver::try_new(text)?.solve_using(auto_solver). The model each text denotes is handed to ref_solve, an exhaustive reference interpreter proved sound and "
+         "complete in Coq over the enumerated box; compared: solution iff satisfiable, returned values satisfy the text, reported objective = objective at the returned values, no strictly better "
+         "assignment exists, unsatisfiable texts get the Infeasible verdict (never a solution or a compile error). Genuine defect F2 (variable-free contradictory model solved) was repaired.",
+    design_ref="DESIGN.md section 4 / C03",
+    technique="Coq-verified exhaustive reference interpreter (oracle) + per-program translation validation of the whole pipeline in watchdogged workers",
+    note="Trusted: Coq kernel + vm_compute; the generator's text printer and AST->Gallina printer; exact f64->Q conversion; Python comparison (1e-6). Restricted to Boolean/integer-range variables."),
  "C04": dict(
     category="translation_validation",
     text="Every solution returned by any of the five built-in entry points (solve_milp_lp_problem, auto_solver, solve_real_lp_problem_micro_lp/_clarabel/_slow_simplex) "
